@@ -47,6 +47,11 @@ def gen_ops(tier, rng):
         offs |= {rng.randrange(size) for _ in range(20 if tier == "quick" else 200)}
         for off in sorted(offs):
             ver(f, o, d, p, size, rng.randrange(d + p), off, rng.randrange(1, 256), "large")
+    # many callers verifying their own valid sets through ONE encoder: every verdict must be true
+    for (fam, o, d, p, size) in [("default", "-", 5, 3, 4096), ("default", "ms=64,g=4", 10, 4, 20000), ("leo8", "-", 8, 8, 4096),
+                                  ("leo16", "-", 8, 8, 65536), ("leo16", "-", 4, 2, 4096), ("cauchy", "nosimd", 3, 2, 1000)]:
+        for n in ([8, 32] if tier == "quick" else [2, 8, 32, 64]):
+            ops.append((f"concver {fam} {o} {d} {p} {size} {n} {1500 if tier == 'quick' else 8000}", {"cat": "concurrent-verify", "dl": 1}))
     return ops
 
 
